@@ -109,9 +109,6 @@ func (rndb *RangeNamespaceDataBlock) Populate(ctx context.Context, eds eds.Acces
 
 func (rndb *RangeNamespaceDataBlock) UnmarshalFn(root *share.AxisRoots) UnmarshalFn {
 	return func(cntrData, idData []byte) error {
-		if !rndb.Container.IsEmpty() {
-			return nil
-		}
 		rndid, err := shwap.RangeNamespaceDataIDV0FromBinary(idData)
 		if err != nil {
 			return fmt.Errorf("unmarhaling RangeNamespaceDataIDV0: %w", err)
@@ -154,6 +151,11 @@ func (rndb *RangeNamespaceDataBlock) UnmarshalFn(root *share.AxisRoots) Unmarsha
 			return fmt.Errorf("validating RangeNamespaceData for %+v: %w", rndb.ID, err)
 		}
 
+		// a Block that is populated already keeps what it has, but whatever else arrives for
+		// its identifier is still verified: the hasher must not vouch for data nobody looked at
+		if !rndb.Container.IsEmpty() {
+			return nil
+		}
 		rndb.Container = rangeNsData
 		return nil
 	}
